@@ -2169,6 +2169,7 @@ func (s *Netceptor) runProtocol(ctx context.Context, sess BackendSession, bi *Ba
 
 						return nil
 					}
+					verifhook.Gate("establish_before_rebuild_req")
 					select {
 					case s.updateRoutingTableChan <- 0:
 					case <-ctx.Done():
